@@ -165,6 +165,25 @@ def execute(case):
                     classes.add('refused-after-reaching-validate')
                 if 'arbiter is already running' in reason:
                     classes.add('refused-conflict')
+                    # the refusal itself must not change anything either:
+                    # the operation in flight still holds the slot, so an
+                    # identical request is refused again (the first refusal
+                    # and this one are sent back to back, nothing ran)
+                    if msg.get("raw") is None and not w.exited:
+                        again = w.send_raw(json.dumps(val).encode())
+                        rep2 = again.reply() if again.sync_replies else None
+                        if rep2 is None or rep2.get("status") != "error" or \
+                                'arbiter is already running' not in str(
+                                    rep2.get("reason")):
+                            viols.append(Violation(
+                                'C11:conflict-refusal-released-the-slot',
+                                'request %s was refused with the conflict '
+                                'error; the same request sent again at once '
+                                'was answered %r' % (
+                                    json.dumps(val)[:160],
+                                    {x: (rep2 or {}).get(x)
+                                     for x in ('status', 'reason')})))
+                        after = snapshot(h)
                 d = _diff(before, after)
                 if d and msg.get("command") == 'set' and all(
                         x.startswith('/nevents') or '/options/' in x
